@@ -11,7 +11,7 @@ PROP = {
         {"tag": "c20src-release", "bin": "c20src", "profile": "release", "tiers": ["thorough"], "timeout": 600},
     ],
     "mismatch_is_failing": True,
-    "rule": "invocations written in the harness source by a prefix macro (arr!/box_arr! list forms with every element count 0..=64, u32/String/clone-logging/zero-sized elements, 0-2 trailing commas, const position; both repeat forms over {0,1,2,3,8,16,33,64,100,128,255,256,1024}) plus generated programs compiled with rustc against the rlib cargo built from the current tree (every element count 0..=64 plus 100,128,255,256 for arr!/box_arr!/const, repeat forms over the lattice plus 1025 and 2048 (thorough: 18 more lengths) with type-level lengths written as explicit UInt nests, const-item lengths as bare path and braced, box_arr! in a const); a program that does not compile is the observable 1. distinct = distinct CASE lines; non-trivial = count > 0 and the invocation compiles",
+    "rule": "invocations written in the harness source by a prefix macro (arr!/box_arr! list forms with every element count 0..=64, u32/String/clone-logging/zero-sized elements, 0-2 trailing commas, const position; both repeat forms over {0,1,2,3,8,16,33,64,100,128,255,256,1024}) plus generated programs compiled with rustc against the rlib cargo built from the current tree (list forms whose elements are distinct fn items coerced to one fn-pointer type, repeat forms whose operand is a `const` item of a non-Copy type, a braced length that is a const generic parameter of the enclosing fn; every element count 0..=64 plus 100,128,255,256 for arr!/box_arr!/const, repeat forms over the lattice plus 1025 and 2048 (thorough: 18 more lengths) with type-level lengths written as explicit UInt nests, const-item lengths as bare path and braced, box_arr! in a const); a program that does not compile is the observable 1. distinct = distinct CASE lines; non-trivial = count > 0 and the invocation compiles",
     "nontrivial": lambda case, obs: case.split()[1] != "0" and obs.split()[0] == "0",
     "trusted_extra": [
         "C20 (strength PARTIAL): proved is the meaning of the macro arms as stated in coq/theories/MacroDecls.v, which are proved equal to the arms tools/ga2coq regenerates from src/arr.rs on every run (coq/gen/GenMacro.v, coq/theories/MacroTie.v; also the const-ness of the crate functions the arms call) under the evaluation rules stated in Macros.v; trusted and sampled by the correspondence only: macro_rules! fragment matching and hygiene, Rust's left-to-right evaluation order and [x; n] / vec![x; n] semantics, typenum's Const<N> table (per length, hence the dense sampling of element counts), rustc's const evaluator",
